@@ -862,7 +862,9 @@ func cmdRacePass(args []string) int {
 	if many < 64 {
 		many = 64
 	}
-	for r := 0; r < 3; r++ {
+	// rounds 0..2: the bodies mixed; then one round per body with ALL goroutines running that body
+	// ten times (everybody inside the same kind of kernel at the same moment)
+	for r := 0; r < 3+len(bs); r++ {
 		f := c20NewFixture()
 		var wg sync.WaitGroup
 		start := make(chan struct{})
@@ -872,7 +874,13 @@ func cmdRacePass(args []string) int {
 				defer wg.Done()
 				<-start
 				defer func() { recover() }()
-				bs[(g+r)%len(bs)].run(f, func() { runtime.Gosched() })
+				if r < 3 {
+					bs[(g+r)%len(bs)].run(f, func() { runtime.Gosched() })
+					return
+				}
+				for k := 0; k < 10; k++ {
+					bs[r-3].run(f, func() {})
+				}
 			}(g)
 		}
 		close(start)
@@ -888,7 +896,7 @@ func cmdRacePass(args []string) int {
 			return 3
 		}
 	}
-	fmt.Printf("racepass many: 3 rounds x %d goroutines done\n", many)
+	fmt.Printf("racepass many: %d rounds x %d goroutines done\n", 3+len(bs), many)
 	// phase 4: FIRST uses. Whatever the library builds lazily per shape, size or rank (a table of
 	// seeds, a scratch buffer, a cached constant) is built the first time that shape is seen - once per
 	// process. Every round uses shapes no earlier round used, in three goroutines at once: forward
